@@ -12,7 +12,7 @@ and idle.  Then a well-formed read request is sent on B and on a fresh connectio
       (direct check, no model);
   (c) the probes on B and C are each answered by exactly one normal response of the probe's type with its ids."""
 from harness.runner import Report
-from harness import execlib, serverlib, frontends
+from harness import execlib, serverlib, frontends, framelib
 
 ASSUMPTIONS = ['event loops and sockets are replaced by in-process fakes that hand each chunk to the real handler in order; '
                'socketserver / asyncio / the Twisted reactor themselves are not exercised',
@@ -99,7 +99,7 @@ def gen_hostile(rng, framer, units, single, other_pdus=None):
                 c[i] ^= 1 << rng.randrange(8)
         else:
             c = serverlib.frame_pdu(framer, rng.choice(UNKNOWN_SUB), uid, tid)
-        if framer == 'binary' and kind in ('valid-write', 'valid-other') and any(b in (0x7B, 0x7D) for b in c[1:-1]):
+        if framer == 'binary' and kind in ('valid-write', 'valid-other') and framelib.has_delim(c):
             kind = 'binary-delims'
         if rng.random() < 0.15 and chunks and len(chunks[-1]) + len(c) < 600:
             chunks[-1] = chunks[-1] + c          # several frames (good and bad) in one read / datagram
@@ -136,7 +136,7 @@ def gen_damaged_writes(rng, framer, units, single):
             continue
         good = serverlib.frame_request(framer, rd, uid, 0)
         bad = list(serverlib.frame_request(framer, wr, uid, 0))
-        how = rng.choice(['wrong-checksum', 'nonhex-checksum', 'nonhex-unit', 'cut'])
+        how = rng.choice(['wrong-checksum', 'nonhex-checksum', 'nonhex-unit', 'cut', 'swapped-checksum'])
         if framer == 'ascii':
             if how == 'wrong-checksum':
                 bad[-3] = ord('0') if bad[-3] != ord('0') else ord('1')
@@ -149,14 +149,18 @@ def gen_damaged_writes(rng, framer, units, single):
         elif framer == 'rtu':
             if how == 'cut':
                 bad = bad[:-1]
+            elif how == 'swapped-checksum' and bad[-1] != bad[-2]:
+                bad[-1], bad[-2] = bad[-2], bad[-1]      # the right CRC, its two bytes in the wrong order
             else:
                 bad[-1] ^= 0x55
         else:
             if how == 'cut':
                 bad = bad[:-2] + [0x7D]
+            elif how == 'swapped-checksum' and bad[-2] != bad[-3] and 0x7B not in (bad[-2], bad[-3]) and 0x7D not in (bad[-2], bad[-3]):
+                bad[-2], bad[-3] = bad[-3], bad[-2]
             else:
                 bad[-2] ^= 0x55
-        if framer == 'binary' and any(b in (0x7B, 0x7D) for f in (good, bad) for b in f[1:-1]):
+        if framer == 'binary' and (framelib.has_delim(good) or framelib.has_delim(bad)):
             continue
         chunks.append(list(good) + bad)
         kinds.append('damaged-write-after-read:' + how)
@@ -183,7 +187,7 @@ def gen_probe(rng, framer, units, single, bcast):
                 continue
             tid = rng.randrange(1, 65536)
             f = serverlib.frame_request(framer, r, uid, tid)
-            if framer == 'binary' and any(b in (0x7B, 0x7D) for b in f[1:-1]):
+            if framer == 'binary' and framelib.has_delim(f):
                 continue
             return {'uid': uid, 'tid': tid, 'req': r, 'frame': f}
     return None
@@ -308,7 +312,7 @@ def check(ctx, rep, cases):
             if ok and c['framer'] == 'tcp' and parsed[0]['tid'] != p['tid']:
                 ok = False
             if not ok:
-                if c['framer'] == 'binary' and any(b in (0x7B, 0x7D) for f in frames for b in f[1:-1]):
+                if c['framer'] == 'binary' and any(framelib.has_delim(f) for f in frames):
                     rep.violation('a binary response frame contains a delimiter byte', case, finding='binary-framer-escaping')
                     break
                 rep.violation('after the hostile traffic a well-formed read request on the %s was not answered correctly' % name, case,
